@@ -1,0 +1,327 @@
+//! Verification hook, compiled only with `--cfg reval_verif` and active only when the
+//! environment variable `REVAL_VERIF_TRACE` names a file: every top-level evaluation is appended
+//! to that file as one JSON line (expression, input, symbols, outcome) so that recorded executions
+//! can be validated against an external specification. Adds no behaviour otherwise.
+
+use crate::{
+    expr::{Expr, Index},
+    value::Value,
+    Error, Result,
+};
+use std::{fmt::Write as _, io::Write as _, sync::Mutex};
+
+static LOCK: Mutex<()> = Mutex::new(());
+
+pub(crate) fn enabled() -> bool {
+    std::env::var_os("REVAL_VERIF_TRACE").is_some()
+}
+
+fn limbs(mut x: u128, out: &mut String) {
+    out.push('[');
+    let mut first = true;
+    while x > 0 {
+        if !first {
+            out.push(',');
+        }
+        first = false;
+        let _ = write!(out, "{}", x % 32768);
+        x /= 32768;
+    }
+    out.push(']');
+}
+
+fn int(x: i128, out: &mut String) {
+    let sign = if x == 0 { 0 } else if x > 0 { 1 } else { -1 };
+    let _ = write!(out, "{{\"s\":{sign},\"m\":");
+    limbs(x.unsigned_abs(), out);
+    out.push('}');
+}
+
+fn text(s: &str, out: &mut String) {
+    out.push('[');
+    for (i, c) in s.chars().enumerate() {
+        if i > 0 {
+            out.push(',');
+        }
+        let _ = write!(out, "{}", c as u32);
+    }
+    out.push(']');
+}
+
+fn float(x: f64, out: &mut String) {
+    if x.is_nan() {
+        out.push_str("{\"c\":\"nan\",\"s\":1,\"m\":[],\"e\":0}");
+        return;
+    }
+    let sign = if x.is_sign_negative() { -1 } else { 1 };
+    if x.is_infinite() {
+        let _ = write!(out, "{{\"c\":\"inf\",\"s\":{sign},\"m\":[],\"e\":0}}");
+        return;
+    }
+    let bits = x.to_bits();
+    let exp = ((bits >> 52) & 0x7ff) as i64;
+    let frac = bits & ((1u64 << 52) - 1);
+    let (mut m, mut e) = if exp == 0 { (frac, -1074i64) } else { (frac | (1u64 << 52), exp - 1075) };
+    if m == 0 {
+        let _ = write!(out, "{{\"c\":\"fin\",\"s\":{sign},\"m\":[],\"e\":0}}");
+        return;
+    }
+    while m % 2 == 0 {
+        m /= 2;
+        e += 1;
+    }
+    let _ = write!(out, "{{\"c\":\"fin\",\"s\":{sign},\"m\":");
+    limbs(m as u128, out);
+    let _ = write!(out, ",\"e\":{e}}}");
+}
+
+fn value(v: &Value, out: &mut String) {
+    match v {
+        Value::None => out.push_str("{\"t\":\"None\"}"),
+        Value::Bool(b) => {
+            let _ = write!(out, "{{\"t\":\"Bool\",\"b\":{b}}}");
+        }
+        Value::Int(i) => {
+            out.push_str("{\"t\":\"Int\",\"n\":");
+            int(*i, out);
+            out.push('}');
+        }
+        Value::Float(f) => {
+            out.push_str("{\"t\":\"Float\",\"f\":");
+            float(*f, out);
+            out.push('}');
+        }
+        Value::Decimal(d) => {
+            out.push_str("{\"t\":\"Dec\",\"n\":");
+            int(d.mantissa(), out);
+            let _ = write!(out, ",\"sc\":{}}}", d.scale());
+        }
+        Value::String(s) => {
+            out.push_str("{\"t\":\"Str\",\"cs\":");
+            text(s, out);
+            out.push('}');
+        }
+        Value::DateTime(d) => {
+            out.push_str("{\"t\":\"DT\",\"n\":");
+            int(d.timestamp() as i128 * 1_000_000_000 + d.timestamp_subsec_nanos() as i128, out);
+            out.push('}');
+        }
+        Value::Duration(d) => {
+            out.push_str("{\"t\":\"Dur\",\"n\":");
+            int(d.num_seconds() as i128 * 1_000_000_000 + d.subsec_nanos() as i128, out);
+            out.push('}');
+        }
+        Value::Vec(items) => {
+            out.push_str("{\"t\":\"Vec\",\"xs\":[");
+            for (i, item) in items.iter().enumerate() {
+                if i > 0 {
+                    out.push(',');
+                }
+                value(item, out);
+            }
+            out.push_str("]}");
+        }
+        Value::Map(map) => {
+            out.push_str("{\"t\":\"Map\",\"kv\":[");
+            for (i, (key, item)) in map.iter().enumerate() {
+                if i > 0 {
+                    out.push(',');
+                }
+                out.push('[');
+                text(key, out);
+                out.push(',');
+                value(item, out);
+                out.push(']');
+            }
+            out.push_str("]}");
+        }
+    }
+}
+
+fn node(kind: &str, children: &[&Expr], out: &mut String) {
+    let _ = write!(out, "{{\"k\":\"{kind}\",\"a\":[");
+    for (i, child) in children.iter().enumerate() {
+        if i > 0 {
+            out.push(',');
+        }
+        expr(child, out);
+    }
+    out.push_str("]}");
+}
+
+fn expr(e: &Expr, out: &mut String) {
+    match e {
+        Expr::Value(v) => {
+            out.push_str("{\"k\":\"val\",\"v\":");
+            value(v, out);
+            out.push('}');
+        }
+        Expr::Reference(n) => {
+            out.push_str("{\"k\":\"ref\",\"n\":");
+            text(n, out);
+            out.push('}');
+        }
+        Expr::Symbol(n) => {
+            out.push_str("{\"k\":\"sym\",\"n\":");
+            text(n, out);
+            out.push('}');
+        }
+        Expr::Function(n, a) => {
+            out.push_str("{\"k\":\"call\",\"n\":");
+            text(n, out);
+            out.push_str(",\"a\":[");
+            expr(a, out);
+            out.push_str("]}");
+        }
+        Expr::Index(a, i) => {
+            out.push_str("{\"k\":\"index\",\"a\":[");
+            expr(a, out);
+            out.push_str("],\"i\":");
+            match i {
+                Index::Map(n) => {
+                    out.push_str("{\"k\":\"f\",\"name\":");
+                    text(n, out);
+                    out.push('}');
+                }
+                Index::Vec(i) if *i >= (1usize << 30) => {
+                    out.push_str("{\"k\":\"I\",\"big\":");
+                    limbs(*i as u128, out);
+                    out.push('}');
+                }
+                Index::Vec(i) => {
+                    let _ = write!(out, "{{\"k\":\"i\",\"i\":{i}}}");
+                }
+            }
+            out.push('}');
+        }
+        Expr::If(c, t, f) => node("if", &[c, t, f], out),
+        Expr::Map(m) => {
+            out.push_str("{\"k\":\"map\",\"kv\":[");
+            for (i, (key, item)) in m.iter().enumerate() {
+                if i > 0 {
+                    out.push(',');
+                }
+                out.push('[');
+                text(key, out);
+                out.push(',');
+                expr(item, out);
+                out.push(']');
+            }
+            out.push_str("]}");
+        }
+        Expr::Vec(v) => node("vec", &v.iter().collect::<Vec<_>>(), out),
+        Expr::Not(a) => node("not", &[a], out),
+        Expr::Neg(a) => node("neg", &[a], out),
+        Expr::Some(a) => node("some", &[a], out),
+        Expr::None(a) => node("none", &[a], out),
+        Expr::Int(a) => node("int", &[a], out),
+        Expr::Float(a) => node("float", &[a], out),
+        Expr::Dec(a) => node("dec", &[a], out),
+        Expr::DateTime(a) => node("datetime", &[a], out),
+        Expr::Duration(a) => node("duration", &[a], out),
+        Expr::Mult(a, b) => node("mult", &[a, b], out),
+        Expr::Div(a, b) => node("div", &[a, b], out),
+        Expr::Rem(a, b) => node("rem", &[a, b], out),
+        Expr::Add(a, b) => node("add", &[a, b], out),
+        Expr::Sub(a, b) => node("sub", &[a, b], out),
+        Expr::Equals(a, b) => node("eq", &[a, b], out),
+        Expr::NotEquals(a, b) => node("neq", &[a, b], out),
+        Expr::GreaterThan(a, b) => node("gt", &[a, b], out),
+        Expr::GreaterThanEquals(a, b) => node("gte", &[a, b], out),
+        Expr::LessThan(a, b) => node("lt", &[a, b], out),
+        Expr::LessThanEquals(a, b) => node("lte", &[a, b], out),
+        Expr::And(a, b) => node("and", &[a, b], out),
+        Expr::Or(a, b) => node("or", &[a, b], out),
+        Expr::BitAnd(a, b) => node("bitand", &[a, b], out),
+        Expr::BitOr(a, b) => node("bitor", &[a, b], out),
+        Expr::BitXor(a, b) => node("bitxor", &[a, b], out),
+        Expr::Contains(a, b) => node("contains", &[a, b], out),
+        Expr::UpperCase(a) => node("uppercase", &[a], out),
+        Expr::LowerCase(a) => node("lowercase", &[a], out),
+        Expr::Trim(a) => node("trim", &[a], out),
+        Expr::Floor(a) => node("floor", &[a], out),
+        Expr::Round(a) => node("round", &[a], out),
+        Expr::Fract(a) => node("fract", &[a], out),
+        Expr::Year(a) => node("year", &[a], out),
+        Expr::Month(a) => node("month", &[a], out),
+        Expr::Week(a) => node("week", &[a], out),
+        Expr::Day(a) => node("day", &[a], out),
+        Expr::Hour(a) => node("hour", &[a], out),
+        Expr::Minute(a) => node("minute", &[a], out),
+        Expr::Second(a) => node("second", &[a], out),
+    }
+}
+
+fn outcome(result: &Result<Value>, out: &mut String) {
+    match result {
+        Ok(v) => {
+            out.push_str("{\"ok\":true,\"v\":");
+            value(v, out);
+            out.push('}');
+        }
+        Err(e) => {
+            let (variant, payload, name): (&str, Option<&Value>, Option<&str>) = match e {
+                Error::InvalidFunctionName(n) => ("InvalidFunctionName", None, Some(n)),
+                Error::DuplicateFunctionName(n) => ("DuplicateFunctionName", None, Some(n)),
+                Error::DuplicateRuleName(n) => ("DuplicateRuleName", None, Some(n)),
+                Error::ValueSerializationError(_) => ("ValueSerializationError", None, None),
+                Error::InvalidType => ("InvalidType", None, None),
+                Error::InvalidCast(v, _) => ("InvalidCast", Some(v), None),
+                Error::NumericOverflow(_) => ("NumericOverflow", None, None),
+                Error::UnexpectedValueType(v, _) => ("UnexpectedValueType", Some(v), None),
+                Error::UnknownRef(n) => ("UnknownRef", None, Some(n)),
+                Error::UnknownIndex(n) => ("UnknownIndex", None, Some(n)),
+                Error::UserFunctionError { function, .. } => ("UserFunctionError", None, Some(function)),
+                Error::UnknownUserFunction(n) => ("UnknownUserFunction", None, Some(n)),
+                Error::ValueOutOfBounds(v, _) => ("ValueOutOfBounds", Some(v), None),
+                Error::DivisionByZero => ("DivisionByZero", None, None),
+                Error::InvalidSymbol(n) => ("InvalidSymbol", None, Some(n)),
+            };
+            let _ = write!(out, "{{\"ok\":false,\"variant\":\"{variant}\",\"msg\":");
+            text(&e.to_string(), out);
+            if let Some(p) = payload {
+                out.push_str(",\"p\":");
+                value(p, out);
+            }
+            if let Some(n) = name {
+                out.push_str(",\"n\":");
+                text(n, out);
+            }
+            out.push('}');
+        }
+    }
+}
+
+/// Append one record for a finished top-level evaluation
+pub(crate) fn record_eval(
+    expression: &Expr,
+    symbols: &[(&String, &Value)],
+    facts: &Value,
+    result: &Result<Value>,
+) {
+    let Some(path) = std::env::var_os("REVAL_VERIF_TRACE") else {
+        return;
+    };
+    let mut line = String::from("{\"prog\":");
+    expr(expression, &mut line);
+    line.push_str(",\"env\":{\"input\":");
+    value(facts, &mut line);
+    line.push_str(",\"funcs\":[],\"syms\":[");
+    for (i, (name, item)) in symbols.iter().enumerate() {
+        if i > 0 {
+            line.push(',');
+        }
+        line.push('[');
+        text(name, &mut line);
+        line.push(',');
+        value(item, &mut line);
+        line.push(']');
+    }
+    line.push_str("]},\"x\":");
+    outcome(result, &mut line);
+    line.push_str(",\"calls\":[]}\n");
+    let _guard = LOCK.lock();
+    if let Ok(mut file) = std::fs::OpenOptions::new().create(true).append(true).open(path) {
+        let _ = file.write_all(line.as_bytes());
+    }
+}
